@@ -38,6 +38,39 @@ C("tokenize.py::Token.replace",
            "text(result) == text(self).replace(old, new)"],
   result="Token", serves=["C11"])
 
+C("tokenize.py::Token.split",
+  params={"self": "Token", "sep": "opt[str]"}, defaults={"sep": None},
+  requires=["sep is None or len(sep) > 0"],
+  models={"str.split.elem": "any", "str.split.quantified": False},
+  ensures=[
+      # C11: every part is a token that denotes exactly its own slice of the source
+      "all(is_token(result[j]) for j in range(0, len(result)))",
+      "all(same_origin(result[j], self) for j in range(0, len(result)))",
+      "not anchored(self) or all(anchored(result[j]) for j in range(0, len(result)))",
+  ],
+  loops={1: {
+      "types": {"l_": "seq[any]", "s": "any"},
+      "inv": [
+          "len(l_) == len(entry_l_)",
+          # offset (within self) of the end of the previous part plus the separator
+          "pos == (0 if _i == 0 else split_offset(entry_l_, _i - 1) + len(split_part(entry_l_, _i - 1)) "
+          "        + (0 if sep is None else len(sep)))",
+      ],
+      "lemmas": ["split_facts(entry_l_, _i)", "split_facts(entry_l_, _i - 1)",
+                 "self.source is None or substr_lemma(self.source, self.pos, len(self), "
+                 "split_offset(entry_l_, _i), len(split_part(entry_l_, _i)))"],
+      # element _i after iteration _i (lifted to every element when the loop exits)
+      "each": [
+          "is_token(l_[_i])", "same_origin(l_[_i], self)",
+          "l_[_i].pos == self.pos + split_offset(entry_l_, _i)",
+          "text(l_[_i]) == split_part(entry_l_, _i)",
+          "not anchored(self) or anchored(l_[_i])",
+      ],
+  }},
+  result="seq[any]", serves=["C11", "C12"],
+  ghost={"search": {"alphabet": "a ;", "maxlen": 3, "src_maxlen": 4, "unanchored": False}},
+  notes="str.split is a trusted model with ghost offsets; WSFIND lemma for whitespace splits")
+
 C("tokenize.py::Token.lstrip",
   params={"self": "Token", "chars": "opt[str]"}, defaults={"chars": None},
   requires=["chars is None"],
